@@ -180,6 +180,29 @@ func genIO(r *corr.Rand) (setup []string, threads [][]string) {
 	return
 }
 
+// genCopy: goroutines copy between the two files in opposite directions (and within one file), each through handles
+// of its own: no method may hold one file's lock while it waits for another's
+func genCopy(r *corr.Rand) (setup []string, threads [][]string) {
+	h := corr.HexS
+	setup = []string{"create " + h("/a"), "h.write 0 " + strings.Repeat("61", 300), "create " + h("/b"), "h.write 1 " + strings.Repeat("62", 300)}
+	nt := 2 + r.Intn(3)
+	for t := 0; t < nt; t++ {
+		src, dst := "/a", "/b"
+		if t%2 == 1 {
+			src, dst = "/b", "/a"
+		}
+		if r.Chance(20) {
+			src = dst
+		}
+		ops := []string{"openfile " + h(dst) + " 2 420", "open " + h(src)}
+		for k := 0; k < 2+r.Intn(3); k++ {
+			ops = append(ops, corr.Pick(r, []string{"h.copyfrom 0 1 64", "h.copyfrom 0 1 200", "h.seek 1 0 0", "h.seek 0 0 0", "h.copyout 0", "h.read 1 16", "h.write 0 5a5a"}))
+		}
+		threads = append(threads, ops)
+	}
+	return
+}
+
 func runOne(setup []string, threads [][]string) {
 	fs := afero.NewMemMapFs()
 	sr := engines.NewRunner(fs)
@@ -217,7 +240,9 @@ func main() {
 		for i := 0; i < n; i++ {
 			var setup []string
 			var threads [][]string
-			switch i % 6 {
+			switch i % 7 {
+			case 6:
+				setup, threads = genCopy(rng.Fork())
 			case 5:
 				setup, threads = genEmptyDir(rng.Fork())
 			case 4:
